@@ -38,11 +38,52 @@ type Scenario struct {
 	WSel   int      `json:"wsel"`
 	Align  string   `json:"align"`
 	Indent int      `json:"indent"`
+	Api    string   `json:"api"` // "box" (RichText.ToText, also when absent) | "line" (NewTextLine)
 }
+
+const objRune = "\uFFFD" // placeholder character of an inline object
+
+// tokens of the round-5 alphabets that c17.TokenRuns does not know: an inline object and the other paragraph separators
+var extraTok = map[string]string{"obj": objRune, "vt": "\v", "ff": "\f", "nel": "\u0085", "lsep": "\u2028", "psep": "\u2029"}
+
+// objWidth: width of the inline objects of the scenario in mm (height 2 mm, below the ascent of every face used)
+func objWidth(s *Scenario) float64 { return 2.5 + 0.5*float64(len(s.Toks)%3) }
+
+const objHeight = 2.0
 
 const unit = 1e-3 // mm
 
-func (s *Scenario) runs() ([]c17.Run, error) { return c17.TokenRuns(s.Toks) }
+func (s *Scenario) runs() ([]c17.Run, error) {
+	var runs []c17.Run
+	for _, t := range s.Toks {
+		var r c17.Run
+		if txt, ok := extraTok[t]; ok {
+			r = c17.Run{Font: 0, Text: txt}
+		} else {
+			rs, err := c17.TokenRuns([]string{t})
+			if err != nil {
+				return nil, err
+			}
+			r = rs[0]
+		}
+		if n := len(runs); n > 0 && runs[n-1].Font == r.Font {
+			runs[n-1].Text += r.Text
+		} else {
+			runs = append(runs, r)
+		}
+	}
+	return runs, nil
+}
+
+// measure: the advance of a piece of text in which every inline object counts with the object width
+func measure(f *canvas.FontFace, txt string, objW float64) float64 {
+	n := strings.Count(txt, objRune)
+	w := float64(n) * objW
+	if rest := strings.ReplaceAll(txt, objRune, ""); rest != "" {
+		w += f.TextWidth(rest)
+	}
+	return w
+}
 
 // variantOf derives the face variant of the first face from the scenario (one layout in three uses a sub- or
 // superscript face: scaled size, offsets): it must not affect any post-condition.
@@ -79,15 +120,16 @@ func faces(v canvas.FontVariant) ([]*canvas.FontFace, error) {
 // 1: just below the longest word (overflow), 2: the longest word plus a hair, 3 and 4: fractions of the one-line
 // width, 5: exactly the one-line width, 6: wider than the text.
 func boxWidth(s *Scenario, runs []c17.Run, fs []*canvas.FontFace, indent float64) float64 {
+	objW := objWidth(s)
 	oneLine := indent
 	for _, r := range runs {
-		oneLine += fs[r.Font].TextWidth(strings.NewReplacer("\n", "", "\r", "").Replace(r.Text))
+		oneLine += measure(fs[r.Font], strings.NewReplacer("\n", "", "\r", "").Replace(r.Text), objW)
 	}
 	// the widest chunk between breakable white space (a selector only; hyphens may still break it)
 	long := 0.0
 	for _, r := range runs {
 		for _, chunk := range strings.FieldsFunc(r.Text, func(c rune) bool { return c == ' ' || c == '\u3000' || c == '\n' || c == '\r' }) {
-			if w := fs[r.Font].TextWidth(chunk); w > long {
+			if w := measure(fs[r.Font], chunk, objW); w > long {
 				long = w
 			}
 		}
@@ -128,6 +170,7 @@ type Span struct {
 	Asc  int   `json:"asc"`
 	Desc int   `json:"desc"`
 	Lv   int   `json:"lv"` // bidi embedding level
+	No   int   `json:"no"` // number of inline objects the span carries
 	T    []int `json:"t"`
 	G    []int `json:"g"`
 }
@@ -149,6 +192,9 @@ type KP struct {
 
 type Event struct {
 	K       int      `json:"k"`
+	Api     string   `json:"api"`  // "box" | "line"
+	ObjW    int      `json:"objw"` // width of the inline objects
+	Lh      int      `json:"lh"`   // api "line": ascent + descent + line gap of the face
 	Text    []int    `json:"text"`
 	Width   int      `json:"width"`
 	Indent  int      `json:"indent"`
@@ -221,7 +267,13 @@ func layout(s *Scenario, k int) (*observed, error) {
 	for _, r := range runs {
 		full += r.Text
 	}
-	ev := &Event{K: k, Text: runes(full), Width: qi(width), Indent: qi(indent), Align: s.Align, Lines: []LineEv{}, Ls: int(math.Round(lineStretch * 1000))}
+	objW := objWidth(s)
+	hasObj := strings.Contains(full, objRune)
+	isLine := s.Api == "line"
+	if isLine && (hasObj || len(runs) > 1 || s.Align == "J") {
+		return nil, fmt.Errorf("single-line scenario with objects, two faces or justification")
+	}
+	ev := &Event{K: k, Api: "box", ObjW: qi(objW), Text: runes(full), Width: qi(width), Indent: qi(indent), Align: s.Align, Lines: []LineEv{}, Ls: int(math.Round(lineStretch * 1000))}
 	for _, t := range s.Toks {
 		if t == "heb" {
 			ev.Bidi = true
@@ -232,6 +284,11 @@ func layout(s *Scenario, k int) (*observed, error) {
 		if u := int(math.Ceil(f.MmPerEm / unit)); u > ev.U {
 			ev.U = u
 		}
+	}
+	if isLine {
+		ev.Api = "line"
+		m := fs[0].Metrics()
+		ev.Lh = qi(m.Ascent + m.Descent + m.LineGap)
 	}
 	res := &observed{ev: ev}
 	type out struct {
@@ -247,18 +304,36 @@ func layout(s *Scenario, k int) (*observed, error) {
 			}
 			ch <- o
 		}()
-		rt := canvas.NewRichText(fs[0])
-		for _, r := range runs {
-			rt.WriteFace(fs[r.Font], r.Text)
+		if isLine {
+			o.t = canvas.NewTextLine(fs[0], full, halign)
+		} else {
+			rt := canvas.NewRichText(fs[0])
+			for _, r := range runs {
+				for i, seg := range strings.Split(r.Text, objRune) {
+					if i > 0 {
+						rt.WriteCanvas(canvas.New(objW, objHeight), canvas.Baseline)
+					}
+					if seg != "" {
+						rt.WriteFace(fs[r.Font], seg)
+					}
+				}
+			}
+			o.t = rt.ToText(width, 0, halign, valign, indent, lineStretch)
 		}
-		o.t = rt.ToText(width, 0, halign, valign, indent, lineStretch)
 		// observation (may panic as well)
 		o.t.WalkLines(func(y float64, spans []canvas.TextSpan) {
 			ln := LineEv{Y: qi(-y), Spans: []Span{}}
 			adj := 0.0
 			for _, sp := range spans {
 				m := sp.Face.Metrics()
-				e := Span{X: qi(sp.X), W: qi(sp.Width), Asc: qi(m.Ascent), Desc: qi(m.Descent), Lv: sp.Level, T: runes(sp.Text), G: []int{}}
+				e := Span{X: qi(sp.X), W: qi(sp.Width), Asc: qi(m.Ascent), Desc: qi(m.Descent), Lv: sp.Level, No: len(sp.Objects), T: runes(sp.Text), G: []int{}}
+				if len(sp.Objects) > 0 { // an object span reaches as high and as deep as its objects
+					e.Asc, e.Desc = 0, 0
+					for _, ob := range sp.Objects {
+						a, d := ob.Heights(sp.Face)
+						e.Asc, e.Desc = max(e.Asc, qi(a)), max(e.Desc, qi(d))
+					}
+				}
 				for _, g := range sp.Glyphs {
 					e.G = append(e.G, int(g.Text))
 				}
@@ -268,7 +343,11 @@ func layout(s *Scenario, k int) (*observed, error) {
 				if e.Desc > ln.Desc {
 					ln.Desc = e.Desc
 				}
-				if b := qi(m.Descent + m.LineGap); b > ln.Bot {
+				b := qi(m.Descent + m.LineGap)
+				if len(sp.Objects) > 0 { // line.Heights: an object's own descent plus the line gap of its face
+					b = e.Desc + qi(m.LineGap)
+				}
+				if b > ln.Bot {
 					ln.Bot = b
 				}
 				// what was added to the natural advance of the glue glyphs (0 = left unstretched)
@@ -297,7 +376,8 @@ func layout(s *Scenario, k int) (*observed, error) {
 	if res.panic != "" || res.hung {
 		return res, nil
 	}
-	if ev.Bidi {
+	if ev.Bidi || hasObj || isLine {
+		// (inline objects: the item list cannot be rebuilt outside ToText - the object advances are put in there)
 		ev.KP = KP{OK: false, Brk: []int{}}
 		return res, nil
 	}
@@ -460,7 +540,7 @@ func gcfg(mode string, ntok, nrand, maxw int, indents string, mc bool) string {
 }
 
 func (d Driver) Run(c *core.Ctx) error {
-	c.Rule = "scenario = (token list over {on, women, wo+soft hyphen+men, new / ne+soft hyphen+w (second face), space, no-break space, ideographic space, hyphen, newline}, width selector relative to the measured text, alignment L/R/C/J, indent 0/5 mm), plus right-to-left paragraphs with embedded left-to-right words and narrow justified paragraphs of 9..14 words at 20..23 mm, laid out by RichText.ToText with DejaVuSerif/EBGaramond 12 pt; every layout is one event judged by Trace_Layout. non-trivial = the layout has at least two lines and at least one visible character; distinct by scenario"
+	c.Rule = "scenario = (token list over {on, women, wo+soft hyphen+men, new / ne+soft hyphen+w (second face), space, no-break space, ideographic space, hyphen, newline}, width selector relative to the measured text, alignment L/R/C/J, indent 0/5 mm), plus right-to-left paragraphs with embedded left-to-right words and narrow justified paragraphs of 9..14 words at 20..23 mm, and token lists with inline objects (WriteCanvas, adjacent ones included), laid out by RichText.ToText; plus single-line layouts (NewTextLine, L/R/C) of token lists over words, space, hyphen and every paragraph separator (LF, CR, CR LF, VT, FF, U+0085, U+2028, U+2029); with DejaVuSerif/EBGaramond 12 pt; every layout is one event judged by Trace_Layout. non-trivial = the layout has at least two lines and at least one visible character; distinct by scenario"
 	c.Assumptions = []string{
 		"mixed-direction text (right-to-left paragraphs with embedded left-to-right words; Hebrew letters are .notdef glyphs in the bundled fonts) is only checked for stacking, pairwise disjoint spans, inside-the-box and Bounds/Heights; everything else uses left-to-right text; horizontal writing mode, height 0 (unlimited), vertical alignment Top/Center/Bottom, line stretch 0/0.5/-0.2 and the variant of the first face (normal/subscript/superscript) derived from the scenario",
 		"observed lengths are quantised to 1e-3 mm; alignment tolerances 2e-3 mm, justified lines (glue glyphs+1)*size/unitsPerEm + 2e-3 mm (glue is stretched in whole font units)",
@@ -571,6 +651,20 @@ func (d Driver) Run(c *core.Ctx) error {
 	// narrow justified paragraphs of 9..14 words at 20..23 mm: lines that must be shrunk, many fitness classes in play
 	for _, nt := range []int{9, 11, 12, 14} {
 		run(tlc.Opts{Module: "Layout", Config: gcfg("para", nt, c.Pick(250, 1200), maxw, "{0}", false), Seed: c.Seed + int64(100+nt)})
+	}
+	// round 5: inline objects (adjacent ones included) between words of two faces, spaces and newlines
+	for nt := 1; nt <= 3; nt++ {
+		run(tlc.Opts{Module: "Layout", Config: gcfg("obj", nt, 0, maxw, "{0, 1}", false)})
+	}
+	for nt := 4; nt <= 7; nt++ {
+		run(tlc.Opts{Module: "Layout", Config: gcfg("obj", nt, c.Pick(30, 400), maxw, map[bool]string{false: "{0}", true: "{0, 1}"}[c.Thorough()], false), Seed: c.Seed + int64(200+nt)})
+	}
+	// round 5: NewTextLine with every paragraph separator (LF, CR, CR LF, VT, FF, U+0085, U+2028, U+2029)
+	for nt := 1; nt <= c.Pick(2, 4); nt++ {
+		run(tlc.Opts{Module: "Layout", Config: gcfg("line", nt, 0, maxw, "{0}", false)})
+	}
+	for nt := c.Pick(3, 5); nt <= 7; nt++ {
+		run(tlc.Opts{Module: "Layout", Config: gcfg("line", nt, c.Pick(150, 3000), maxw, "{0}", false), Seed: c.Seed + int64(300+nt)})
 	}
 	wg.Wait()
 	c.Count(n, nontrivial, 0)
